@@ -54,7 +54,7 @@ def make_lit(kind, k):
 @st.composite
 def general(draw, max_classes=4, max_nodes=7, max_props=4, max_stmts=30, bnodes=True, lit_kinds=None,
             inst_props=(RDF_TYPE,), bnode_classes=False, class_typing=False, min_stmts=1, untyped=True,
-            single_ns=False, self_links=True, iri_like_literals=False):
+            single_ns=False, self_links=True, iri_like_literals=False, hash_props=False, unicode_iris=False, colon_locals=False):
     """General graphs: 1..max_classes classes, nodes that are IRIs or blank nodes with 0..n classes,
     1..max_props properties; values: literals of several kinds, untyped IRIs / bnodes, typed nodes, the node
     itself.  The statement list is duplicate-free and its order is the document order."""
@@ -71,6 +71,13 @@ def general(draw, max_classes=4, max_nodes=7, max_props=4, max_stmts=30, bnodes=
     cls_b = bnode_classes and draw(st.booleans())
     classes = [["bnode", "_:c%d" % j] if (cls_b and j == n_classes - 1) else ["iri", class_iri(j)] for j in range(n_classes)]
     props = [prop_iri(i) for i in range(n_props)]
+    if hash_props:
+        props = props + ["http://ex.org/voc#h0", "http://ex.org/ns/voc#h1"]
+    if unicode_iris:
+        props = props + ["http://ex.org/propri\u00e9t\u00e9"]
+        nodes = [["iri", n[1] + "\u00fc"] if (n[0] == "iri" and i % 3 == 0) else n for i, n in enumerate(nodes)]
+    if colon_locals:
+        nodes = [["iri", n[1] + ":x%d" % i] if (n[0] == "iri" and i % 2 == 0) else n for i, n in enumerate(nodes)]
     if inst_prop != RDF_TYPE and draw(st.booleans()):
         props = props + [RDF_TYPE]       # rdf:type must be an ordinary property then
 
@@ -210,6 +217,12 @@ def consistent(draw, max_classes=3, max_inst=4, max_props=3, bnode_classes=False
                         start = draw(st.integers(0, len(rng) - 1))
                         for x in range(cnt):
                             triples.append([n, p, rng[(start + x) % len(rng)]])
+    # classes may themselves be typed by a meta class (then, with all_classes_mode, the class nodes are instances too)
+    if draw(st.integers(0, 3)) == 0:
+        meta = ["iri", NS[0] + "Meta"]
+        for j in range(n_classes):
+            if classes[j][0] == "iri" and draw(st.booleans()):
+                triples.append([classes[j], RDF_TYPE, meta])
     # incoming links from untyped nodes (homogeneous per predicate: all IRI or all blank-node sources)
     for j in range(n_classes):
         for _ in range(draw(st.integers(0, 2))):
@@ -271,8 +284,30 @@ def scale_graph(n, missing=1, double=1):
     return {"triples": tr, "classes": [C], "inst_prop": RDF_TYPE}
 
 
+def ladder_graph(n):
+    """one class with n instances and one property per k in 1..n-1: property p<k> is held by exactly the first k instances
+    (literal for odd k, link to an untyped IRI for even k), and untyped IRI w<k> links to the first k instances through q<k>.
+    Every k/n boundary of the class size occurs, in both directions."""
+    C = "http://ex.org/C0"
+    tr = []
+    for i in range(n):
+        tr.append([["iri", "http://ex.org/s%d" % i], RDF_TYPE, ["iri", C]])
+    for k in range(1, n):
+        for i in range(k):
+            node = ["iri", "http://ex.org/s%d" % i]
+            if k % 2:
+                tr.append([node, "http://ex.org/p%d" % k, ["lit", "v", XSD_STRING, ""]])
+            else:
+                tr.append([node, "http://ex.org/p%d" % k, ["iri", "http://ex.org/u%d" % k]])
+            if k % 3 == 0:
+                tr.append([["iri", "http://ex.org/w%d" % k], "http://ex.org/q%d" % k, node])
+    return {"triples": tr, "classes": [C], "inst_prop": RDF_TYPE}
+
+
 def expand(g):
-    """graphs may be stored compactly in a case ({"scale": [n, missing, double]})"""
+    """graphs may be stored compactly in a case ({"scale": [n, missing, double]}, {"ladder": n})"""
     if "scale" in g:
         return scale_graph(*g["scale"])
+    if "ladder" in g:
+        return ladder_graph(g["ladder"])
     return g
